@@ -6,6 +6,12 @@ def udp_nontrivial(tok, res):
         return "socks=" in res and not res.startswith("B=;")
     if tok[0] in ("sudp", "spx"):
         return "conns=" in res and not res.startswith("W=;")
+    if tok[0] == "cpx":
+        return "alive=" in res and not res.startswith("B=;")
+    if tok[0] == "e2ev":
+        return "socks=" in res and not res.startswith("B=;")
+    if tok[0] == "batch":
+        return res.startswith("W0=") and "err" not in res
     if tok[0] == "frame":
         return "rd=toolong" in res or "rd=ok" in res
     if tok[0] == "dec":
@@ -16,6 +22,13 @@ def udp_nontrivial(tok, res):
 
 
 def udp_class(r):
+    if r.startswith("B=") and ";alive=" in r:
+        al = r.rsplit("alive=", 1)[-1].split(";")[0]
+        n = len(al)
+        return "px-conns%s-%s" % ("1" if n == 1 else "2-3" if n <= 3 else "4+",
+                                  "allopen" if "0" not in al else "allclosed" if "1" not in al else "someclosed")
+    if r.startswith("W0="):
+        return "batch-w%s" % ("1" if ";W1=" not in r else "N")
     if r.startswith("B="):
         ferr = r.rsplit("ferr=", 1)[-1] if "ferr=" in r else "0"
         socks = r.rsplit("socks=", 1)[-1].split(";")[0]
@@ -64,6 +77,14 @@ PROP = {
             "Frp.C03.srv_quiescent_one_sender", "Frp.C03.srv_taken_on_current", "Frp.C03.srv_next_datagram_delivered",
             "Frp.C03.srv_replace_idle_healthy", "Frp.C03.srv_delivered_after_replacements",
             "Frp.C03.holdsOnSrv_sound", "Frp.C03.srv_model_safe",
+            "Frp.C03.px_reachable_inv", "Frp.C03.px_conservation_up", "Frp.C03.px_conservation_down",
+            "Frp.C03.px_reply_routing", "Frp.C03.px_reply_no_dup", "Frp.C03.px_backend_payload",
+            "Frp.C03.px_socket_exclusive", "Frp.C03.px_step_other", "Frp.C03.px_open_keeps", "Frp.C03.px_frame",
+            "Frp.C03.px_projection", "Frp.C03.px_close_causes", "Frp.C03.px_open_conn_healthy",
+            "Frp.C03.px_closed_has_cause", "Frp.C03.px_delivers_despite_others",
+            "Frp.C03.px_reply_delivers_despite_others", "Frp.C03.holdsOnPx_sound", "Frp.C03.px_model_safe",
+            "Frp.C03.batch_roundtrip", "Frp.C03.batch_independent", "Frp.C03.batch_prefix_stable",
+            "Frp.C03.holdsOnBatch_sound",
         ],
         "engines": [
             {"name": "udp", "quick_n": 6000, "thorough_n": 20000, "thorough_seeds": 4,
@@ -84,14 +105,30 @@ PROP = {
                 "every ReqWorkConn, 1-4 users, 10-40 script tokens = datagrams, bursts, replies, pings, UDPPackets without "
                 "remote address or with undecodable content, loss of the work connection by close / unknown frame / "
                 "oversize frame while idle - 1 to 3 replacements in a row followed by single datagrams - and right behind "
-                "a burst; plain / encrypted / compressed); "
-                "non-trivial = a tunnel / sudp / spx run that delivered something, a frame accepted or rejected, a malformed "
+                "a burst; plain / encrypted / compressed) and cpx runs (the real client-side sudp proxy - "
+                "proxy.NewProxy(sudp).Run / InWorkConn / Close - with 1 to 8 scripted work connections of which several are "
+                "alive at once, the harness playing frps + the visitors on the far end of each and the backend: connections "
+                "opened while requests of the others are outstanding (the backend holds answers back and releases them "
+                "later) and while bursts are in flight, the same user address on several connections, connections taken "
+                "away by FIN / unknown frame / oversize frame while the others carry traffic, undecodable contents, "
+                "Close of the proxy) and e2ev runs (2-3 real SUDPVisitors, fresh per op, through a real frps to ONE real "
+                "frpc sudp proxy, 2-5 users, requests whose answers are held back across the first datagram of another "
+                "visitor; plain / encrypted+compressed) and batch ops (1-6 goroutines each build 2-25 packets with the "
+                "real NewUDPPacket, decode all of them with the real GetContent keeping every result, and the kept results "
+                "are hashed only after all goroutines are done); "
+                "non-trivial = a tunnel / sudp / spx / cpx / e2ev run that delivered something, a batch without error, a frame accepted or rejected, a malformed "
                 "string that decodes, a non-empty payload; distinct = distinct (op line, result) pairs",
         "trusted": COMMON_TRUST + [
-            "models Frp/Model/Base64.lean, Frp/Model/Udp.lean, Frp/Model/Sudp.lean, Frp/Model/UdpSrv.lean written by hand; "
+            "models Frp/Model/Base64.lean, Frp/Model/Udp.lean, Frp/Model/Sudp.lean, Frp/Model/UdpSrv.lean, "
+            "Frp/Model/SudpPx.lean written by hand; "
             "tied by the udp engine (real udp.NewUDPPacket/GetContent/ForwardUserConn/Forwarder, msg.WriteMsg/ReadMsg/"
             "ReadMsgInto, visitor.NewVisitor(SUDPVisitorConfig).Run/Close with a scripted visitor.Helper, "
-            "server.NewService + a scripted frpc for server/proxy/udp.go)",
+            "server.NewService + a scripted frpc for server/proxy/udp.go, client proxy.NewProxy(SUDPProxyConfig).Run/"
+            "InWorkConn/Close with scripted work connections, stand-alone SUDPVisitors against a real frps + frpc)",
+            "cpx ops: the far end of every work connection (frps + visitor) and the backend are played by the harness; "
+            "the light-load schedule of a script (each request is forwarded and answered before the next token of the "
+            "same connection, held answers are sent at the `a` token) is computed by the Lean engine from the model; "
+            "e2ev ops: the visitors' Helper dials the real frps directly (tcpMux off on that frps + frpc pair)",
             "spx ops: the frpc end of the work connections is played by the harness; the light-load schedule of a script "
             "(cancelled senders have left before the next datagram, the current sender takes it) is computed by the Lean "
             "engine from the model; the placement of a datagram that was in flight when the work connection was taken "
@@ -115,6 +152,13 @@ PROP = {
             "deadline of a work connection is the label readerDie; a failing wrapper set-up (WithEncryption) is not a "
             "label; 15 ms after the next StartWorkConn has been read the cancelled sender of the previous connection "
             "has returned (spx ops re-run once when a datagram sent after that is missing)",
+            "client sudp proxy model: a failing wrapper set-up in InWorkConn (WithEncryption) is not a label; the reader's "
+            "own look at pxy.closeCh is covered by hbClose followed by readerDie; the 30 s heartbeat is the label tick "
+            "(never due inside an op); the 30 s idle expiry of a per-user socket is the label sockExit (never due "
+            "inside an op)",
+            "batch ops see aliasing of a returned payload only when the implementation actually re-uses the memory "
+            "while the harness still holds the result (same size class of golib/pool, same P); they keep up to 25 "
+            "results per goroutine and up to 6 goroutines",
             "encryption/compression/bandwidth-limit wrappers of the work connection are byte-transparent (C01/C05)",
         ],
     }
@@ -123,7 +167,9 @@ META = {
         "engine": "lean+harness(udp)",
         "design_ref": "DESIGN.md §6 C03",
         "technique": "Lean 4: base64 round-trip and frame-length arithmetic; labelled transition systems of the "
-                     "UDP forwarding path, the sudp visitor and the server-side work-connection life cycle with multiset-conservation and socket-ownership invariants proved for "
+                     "UDP forwarding path, the sudp visitor, the server-side work-connection life cycle and the client-side sudp proxy with "
+                     "several concurrent work connections, with multiset-conservation, socket-ownership and non-interference "
+                     "(frame / projection) theorems proved for "
                      "all interleavings; differential correspondence with the real codec and forwarder",
         "text": "Proof (partial): (1) GetContent(NewUDPPacket(b)) = b for every byte string, encoding injective, "
                 "length 4*ceil(n/3); (2) the JSON body of a tunnel-path UDPPacket has length "
@@ -153,8 +199,22 @@ META = {
                 "parked on sendCh alone), once the cancelled senders have left at most one sender remains and a "
                 "datagram taken from sendCh is written on the CURRENT connection, drops only by full queue or a failed "
                 "write, and a connection closed locally under a live sender is being replaced; after any number k of "
-                "idle replacements the next datagram is written on connection gen+k and nothing is dropped. The models "
-                "are tied to the code by ~5450 ops per quick run against the real functions, the Lean predicate "
+                "idle replacements the next datagram is written on connection gen+k and nothing is dropped; (6) client side "
+                "of a sudp proxy (client/proxy/sudp.go InWorkConn: per work connection its own reader / sender / heartbeat "
+                "goroutines, readCh / sendCh, closeFn and Forwarder; several work connections - one per visitor connection - "
+                "alive at once, as a transition system): for every interleaving of further InWorkConn calls, traffic, "
+                "failures and Close: per connection, packets read from work connection i = queued on i + handed to the "
+                "backend through sockets of i + dropped on i, replies read from sockets of i = queued on i + written on "
+                "work connection i + dropped on i (multisets), a socket serves one user address of one connection, an "
+                "action of connection j and the opening of a further connection leave every other connection exactly as "
+                "it was (frame theorem for whole runs; projection theorem: a connection's state is a function of its own "
+                "actions), a connection is closed only by its own reader / sender failing or its heartbeat seeing the "
+                "proxy closed, an open connection has dropped nothing except by overload / undecodable content / failed "
+                "backend write, and at light load a datagram and its reply are carried on connection i whatever the "
+                "other connections do; (7) decoding a batch of packets gives each payload back independently of what "
+                "else is decoded (the kept results of the real GetContent are compared after the whole batch, also "
+                "from several goroutines at once). The models "
+                "are tied to the code by ~5550 ops per quick run against the real functions, the Lean predicate "
                 "being evaluated on the implementation's results.",
         "note": "Known finding: udpPacketSize is not validated; above 7605 a single large datagram produces a "
                 "frame the peer rejects (client side: reader goroutine exits, connection stays up, tunnel is "
@@ -162,5 +222,5 @@ META = {
                 "per-user socket), the old Forwarder generation after a reconnect, SUDPVisitor.Close, UDPProxy.Close, "
                 "the 60 s read deadline of a work connection in real time, "
                 "loss of the visitor connection inside a real frps (the scripted far side plays frps there; the "
-                "e2es runs go over one visitor connection).",
+                "e2es runs go over one visitor connection; the e2ev runs have several, none of them is lost).",
     }
